@@ -20,6 +20,15 @@ pub assume_specification<T: Clone>[ <T as std::borrow::ToOwned>::to_owned ](x: &
 // (V2) Option<(A, B)>::unzip (no vstd specification)
 pub assume_specification<A, B>[ Option::<(A, B)>::unzip ](o: Option<(A, B)>) -> (r: (Option<A>, Option<B>))
     ensures r == (match o { Some((a, b)) => (Some(a), Some(b)), None => (None::<A>, None::<B>) });
+// (V3) Option<&T>::copied (no vstd specification)
+pub assume_specification<'a, T: Copy>[ Option::<&'a T>::copied ](o: Option<&'a T>) -> (r: Option<T>)
+    ensures r == (match o { Some(x) => Some(*x), None => None::<T> });
+// (F2) X4: Verus treats an `as f64` cast of an integer as an arbitrary value; the cast is a function of its operand, so the two
+// casts in scale_to_servings are routed through this wrapper (rule `wrapcast`: every `as f64` cast of that function),
+// whose result is the uninterpreted `f64_of`
+pub uninterp spec fn f64_of(x: u32) -> f64;
+#[verifier::external_body]
+pub fn u32_as_f64(x: u32) -> (r: f64) ensures r == f64_of(x) { x as f64 }
 /// r is the IEEE sum / product of a and b (as far as the verifier is concerned: the result of `a + b` / `a * b`)
 pub open spec fn fadd(a: f64, b: f64, r: f64) -> bool { add_ensures::<f64>(a, b, r) }
 pub open spec fn fmul(a: f64, b: f64, r: f64) -> bool { mul_ensures::<f64>(a, b, r) }
@@ -406,3 +415,58 @@ spec:
 } // mod scale
 
 fn main() {}
+
+pub mod recipe {
+use vstd::prelude::*;
+use vstd::std_specs::ops::*;
+use crate::*;
+use crate::quantity::*;
+use crate::model::*;
+use crate::scale::*;
+verus! {
+broadcast use crate::group_f64_total;
+// TRUSTED stand-ins: field types of the recipe that scale_to_servings never touches (no operation on them is used or assumed)
+#[verifier::external_body] pub struct Metadata { _p: () }
+#[verifier::external_body] pub struct Section { _p: () }
+#[verifier::external_body] pub struct Converter { _p: () }
+/*@ type src/scale.rs Servings
+derive
+rewrite `pub struct Servings(pub(crate) Option<Vec<u32>>);` => `pub struct Servings(pub Option<Vec<u32>>);`
+@*/
+/*@ type src/scale.rs Scaled
+derive
+@*/
+/*@ type src/scale.rs ScaledData
+derive
+@*/
+/*@ type src/model.rs Recipe
+derive
+rewrite `pub struct Recipe<D, V: QuantityValue> {` => `pub struct Recipe<D, V> {`
+rewrite `    pub(crate) data: D,` => `    pub data: D,`
+@*/
+pub type ScalableRecipe = Recipe<Servings, ScalableValue>;
+pub type ScaledRecipe = Recipe<Scaled, Value>;
+/// `out` is `r` scaled by `factor` (what ScalableRecipe::scale returns: an assumed stub here, its iterator chains are outside the verifier)
+pub uninterp spec fn recipe_scaled(r: ScalableRecipe, factor: f64, out: ScaledRecipe) -> bool;
+/// the servings a recipe is written for: the first declared value, 1 when none is declared
+pub open spec fn base_servings(r: ScalableRecipe) -> u32 {
+    match r.data.0 { Some(v) => if v@.len() > 0 { v@[0] } else { 1u32 }, None => 1u32 }
+}
+impl ScalableRecipe {
+/*@ fn src/scale.rs ScalableRecipe::scale stub
+ret r
+spec:
+        ensures recipe_scaled(self, factor, r)
+@*/
+/*@ fn src/scale.rs ScalableRecipe::scale_to_servings
+tags C08 C03
+ret r
+wrapcast f64 crate::u32_as_f64
+spec:
+        ensures
+            // [C08] scaling to n servings is scaling by n divided by the first declared servings (one f64 division of the two casts)
+            exists|f: f64| #![trigger recipe_scaled(self, f, r)] div_ensures::<f64>(f64_of(target), f64_of(base_servings(self)), f) && recipe_scaled(self, f, r),
+@*/
+}
+} // verus!
+} // mod recipe
